@@ -426,7 +426,30 @@ def r9_losing_the_race_to_fill_a_slot_is_not_an_error(cx):
         raise AnchorLost("no OnceLock::set in the reader")
 
 
+def r10_state_tested_under_the_guard_that_changes_it(cx):
+    """the first reader of a compressed cluster swaps its `Raw` reader for the `Plain` (decoding) one under the cluster's
+    write lock; several threads may get there together. Whoever takes the write lock must find out *under that lock*
+    whether the swap has already been done: with the state already `Plain`, the code after `RwLock::write` returns
+    normally -- it neither swaps again nor runs into a panic (a test made earlier under a read lock says nothing about
+    what the other thread did in between, and a panic under the write guard poisons the lock for everybody)."""
+    F = cx.F
+    f = F.one(impl_self="reader::content_pack::cluster::Cluster", item="build_plain_reader", closure=False)
+    b = F.body(f)
+    ws = b.calls(r"sync::RwLock::<.*ClusterReader>::write$")
+    if len(ws) != 1:
+        raise AnchorLost("Cluster::build_plain_reader: %d RwLock::write" % len(ws))
+    en = F.enum("reader::content_pack::cluster::ClusterReader")
+    plain = next(v["discr"] for v in en["variants"] if v["name"] == "Plain")
+    r, _ = b.explore(start=ws[0][0], assume_discr={r"cluster::ClusterReader$": plain}, avoid=b.error_blocks())
+    panics = sorted(b.ln(i) for i in (b.panic_blocks() & r))
+    returns = any(b.term(i)["k"] == "return" for i in r)
+    swaps = [st.get("ln") for i in r for st in b.blocks[i]["s"] if st["k"] == "assign" and st["rv"]["k"] == "agg" and (st["rv"].get("adt") or "").endswith("cluster::ClusterReader")]
+    cx.ob("R10", "R10/build_plain_reader/already-plain-under-the-write-lock", returns and not panics and not swaps, f,
+          "with the reader already Plain when the write lock is obtained, build_plain_reader returns (%s) without panicking (panics at lines %s) and without building a reader again (lines %s)" % (returns, panics, swaps), ln=ws[0][1].get("ln"))
+
+
 RULES = [
+    ("R10", r10_state_tested_under_the_guard_that_changes_it, 1),
     ("R9", r9_losing_the_race_to_fill_a_slot_is_not_an_error, 1),
     ("R1", r1_publish, 6),
     ("R2", r2_no_realloc, 3),
